@@ -6,6 +6,7 @@ import (
 	"bytes"
 	"fmt"
 	"sort"
+	"sync"
 	"testing"
 
 	"github.com/gcash/bchd/chaincfg/chainhash"
@@ -551,6 +552,68 @@ var kC14Chain = register(&Kind[c14Chain]{
 	Eval: evalC14Chain,
 })
 
+// ---- kind: filter headers computed by several goroutines at once ---------------------------------
+// MakeHeaderForFilter and GetFilterHash are pure functions of their arguments; callers (a node serving
+// cfheaders to several peers) run them side by side on unrelated filters.
+
+type c14Hdr struct {
+	Seed   uint32 `json:"seed"`
+	G      int    `json:"goroutines"`
+	Rounds int    `json:"rounds"`
+}
+
+func evalC14Hdr(c c14Hdr, o *Obs) error {
+	if c.G < 2 || c.G > 16 || c.Rounds < 1 || c.Rounds > 100000 {
+		return hbug("bad header case")
+	}
+	o.NT()
+	o.Class("C14:headers-side-by-side")
+	errs := make(chan error, c.G)
+	var wg sync.WaitGroup
+	for g := 0; g < c.G; g++ {
+		g := g
+		wg.Add(1)
+		go func() {
+			defer wg.Done()
+			defer func() {
+				if r := recover(); r != nil {
+					errs <- fmt.Errorf("panic in MakeHeaderForFilter: %v", r)
+				}
+			}()
+			var key [16]byte
+			key[0] = byte(g)
+			f, err := gcs.BuildGCSFilter(19, 784931, key, [][]byte{derivedItem(c.Seed+uint32(g), 1), derivedItem(c.Seed+uint32(g), 2)})
+			if err != nil {
+				errs <- err
+				return
+			}
+			nb, _ := f.NBytes()
+			fh := dsha256(nb)
+			for r := 0; r < c.Rounds; r++ {
+				var prev chainhash.Hash
+				copy(prev[:], dsha256([]byte{byte(g), byte(r), byte(r >> 8)}))
+				hd, err := builder.MakeHeaderForFilter(f, prev)
+				if err != nil || !bytes.Equal(hd[:], dsha256(append(append([]byte{}, fh...), prev[:]...))) {
+					errs <- fmt.Errorf("goroutine %d round %d: MakeHeaderForFilter = %x (err %v), want dSHA256(filterhash||prev) - while %d other goroutines compute headers of unrelated filters", g, r, hd[:], err, c.G-1)
+					return
+				}
+			}
+		}()
+	}
+	wg.Wait()
+	select {
+	case err := <-errs:
+		return err
+	default:
+		return nil
+	}
+}
+
+var kC14Hdr = register(&Kind[c14Hdr]{Prop: "C14", Name: "headers-concurrent", Eval: evalC14Hdr,
+	Gen: func(t *rapid.T) c14Hdr {
+		return c14Hdr{Seed: rapid.Uint32().Draw(t, "seed"), G: rapid.IntRange(2, 8).Draw(t, "g"), Rounds: rapid.SampledFrom([]int{500, 2000}).Draw(t, "rounds")}
+	}})
+
 func TestC14(t *testing.T) {
 	propTest(t, "C14", func(ev *Ev) {
 		ev.Rule("(encode) key x P 0..32 x M x multisets up to N=6000 (quick) / 100000 (thorough), a quarter forced into the carry path of "+
@@ -600,6 +663,8 @@ func TestC14(t *testing.T) {
 		kC14Block.Run(t, ev, perShard(pick(1500, 500000)))
 		kC14Chain.Run(t, ev, perShard(pick(1500, 500000)))
 		runConcurrent(kC14Block, t, ev, perShard(pick(100, 10000)), 6)
+		runConcurrent(kC14, t, ev, perShard(pick(100, 10000)), 6)
+		kC14Hdr.Run(t, ev, perShard(pick(12, 400)))
 		ev.requireClasses("C14:P%8=0", "C14:P%8=3", "C14:P%8=7", "C14:N*M-high-half-nonzero", "C14:basic-filter",
 			"C14:builder-latched-error", "C14:builder-unset-parameter", "C14:builder-ok")
 	})
